@@ -11,8 +11,15 @@ use crate::types::TokenType;
 
 pub fn month_parser(config: &SmartCalcConfig, tokinizer: &mut Tokinizer, data: &str) {
     if let Some(months) = config.month_regex.get(&tokinizer.language) {
+        /* Month names inside of the comment are not a part of the calculation */
+        let comment_start = data.find('#').unwrap_or(data.len());
+
         for (re, month) in months {
             for capture in re.captures_iter(data) {
+                if capture.get(0).map_or(false, |content| content.start() >= comment_start) {
+                    continue;
+                }
+
                 if tokinizer.add_token_from_match(&capture.get(0), Some(TokenType::Month(month.month as u32))) {
                     tokinizer.add_uitoken_from_match(capture.get(0), UiTokenType::Month);
                 }
